@@ -814,3 +814,15 @@ def copy_midrun_c11(sc, base, seed):
 
 def copy_midrun_c08(sc, base, seed):
     return copy_midrun(sc, base, seed, pid="C08")
+
+
+def copy_midrun_c02(sc, base, seed):
+    return copy_midrun(sc, base, seed, pid="C02")
+
+
+def copy_midrun_c04(sc, base, seed):
+    return copy_midrun(sc, base, seed, pid="C04")
+
+
+def copy_midrun_c06(sc, base, seed):
+    return copy_midrun(sc, base, seed, pid="C06")
